@@ -20,6 +20,15 @@ RULE = ("scripts of 1..6 commands x one fault at a random point of the conversat
 FAULTS = ["none", "refused", "auth-failed", "server-refuses", "unknown-msg", "lose-clean", "lose-clean", "lose-error", "silent"]
 
 
+def cmd_bounds_c09(words):
+    nargs = {"key": 1, "type": 1, "move": 2, "click": 1, "mdown": 1, "mup": 1, "drag": 2, "pause": 1, "sleep": 1, "capture": 1, "rcapture": 5, "expect": 2, "rexpect": 4}
+    out, i = [], 0
+    while i < len(words):
+        out.append(i)
+        i += 1 + nargs.get(words[i], 0)
+    return out + [len(words)]
+
+
 def play(r, spec, fault, at):
     if fault == "refused":
         spec.events = [("connectfailed",)]
@@ -111,6 +120,15 @@ def run(ctx):
                 spec.unsolicited = 0.7
                 spec.midloss = 0.35
                 fault, at = r.choice(["lose-clean", "lose-clean", "lose-error"]), r.randint(2, 6)
+            if si % 6 == 4:
+                # a command that raises inside the chain (bad button, coordinate out of range, image that does not exist): the rest of
+                # the script is skipped, the connection stays up - and then the server goes away, cleanly
+                bad = r.choice([["click", "0"], ["move", "70000", "0"], ["expect", "missing.png", "0"], ["mdown", "0"]])
+                bnds = cmd_bounds_c09(spec.words)
+                at_w = r.choice(bnds)
+                spec.words = spec.words[:at_w] + bad + spec.words[at_w:]
+                fault, at = r.choice(["lose-clean", "lose-clean", "lose-error", "silent"]), r.randint(3, 8)
+                ctx.count("scripts_with_a_raising_command")
             spec.close_reset = 0.25
             res = play(r, spec, fault, at)
             tl = [t for e in res["events"] for t in e[1]]
